@@ -197,6 +197,10 @@ def cases(tier, seed):
         for steady, pause in ((0.0, 0.0), (1.0, 6.0), (400.0, 0.5)):
             yield {"k": "overlap", "gen": gen, "seed": rnd.randrange(1 << 30), "steady": steady,
                    "pause": pause}
+    for gen in (4, 5):
+        for refusals, calls in ((1, 1), (1, 9), (1, 10), (1, 12), (2, 10)):
+            yield {"k": "busy_init", "gen": gen, "seed": rnd.randrange(1 << 30),
+                   "refusals": refusals, "calls": calls}
     # zero zones explicitly
     for gen in (4, 5):
         for i in range(6):
@@ -302,6 +306,56 @@ def run_retry(case):
             "obs": obs, "sample": info}
 
 
+def run_busy_init(case):
+    """The application already uses the object while init() is still waiting for the console
+    to become reachable: update checks (up to a full buffer of them) are submitted during the
+    refusals; when the console answers, init() succeeds all the same."""
+    gen = case["gen"]
+    rnd = random.Random(case["seed"])
+    inst, meta = installation(gen, rnd, None)
+    viol, obs, out = [], {}, {}
+
+    async def main(loop, net, log):
+        for _ in range(case["refusals"]):
+            net.script.append(("refuse", 0.0))
+        w = AW.ModelWorld(gen, loop, net, log, inst, C.Knobs())
+        t0 = loop.time()
+        it = loop.create_task(w.at.init())
+        # (half a second before the attempt that succeeds: the requests are still alive then)
+        await asyncio.sleep(2.0 * case["refusals"] - 0.5)
+        raised = 0
+        for _ in range(case["calls"]):
+            try:
+                await w.at.check_for_updates()
+            except Exception:  # noqa: BLE001  (the eleventh is refused: the buffer is full)
+                raised += 1
+        out["raised"] = raised
+        out["ret"] = await it
+        out["t"] = loop.time() - t0
+        await quiesce(loop)
+        out["initialised"] = w.at.initialised
+        out["snap"] = H.snapshot(w.at)
+        await w.at.shutdown()
+
+    _, log, st = H.run(main)
+    info = {"gen": gen, "refusals": case["refusals"], "calls": case["calls"]}
+    if st != "ok":
+        viol.append({"mechanism": "init-scenario-hang", "detail": dict(info, status=st)})
+    elif out["ret"] is not True or not out["initialised"]:
+        viol.append({"mechanism": "init-false-against-answering-console:requests-pending",
+                     "detail": dict(info, ret=repr(out["ret"]), t=out["t"],
+                                    refused_calls=out["raised"])})
+    else:
+        acs, names = expected_structure(inst)
+        if set(out["snap"]["acs"]) != set(acs):
+            viol.append({"mechanism": "air-conditioners-differ-from-console",
+                         "detail": dict(info, got=sorted(out["snap"]["acs"]), want=sorted(acs))})
+        else:
+            obs["init_with_requests_pending"] = 1
+    return {"violations": viol, "evals": 1, "decided": 0 if viol else 1, "distinct": 1,
+            "obs": obs, "sample": info}
+
+
 def run_overlap(case):
     """init() issued by another task while shutdown() has not returned yet (it has only just
     started: one loop turn). Whatever that call returns - once both calls are over, a plain
@@ -361,6 +415,8 @@ def run_case(case):
         return run_retry(case)
     if case.get("k") == "overlap":
         return run_overlap(case)
+    if case.get("k") == "busy_init":
+        return run_busy_init(case)
     gen = case["gen"]
     rnd = random.Random(case["seed"])
     inst, meta = installation(gen, rnd, case.get("zones"))
